@@ -111,8 +111,9 @@ def power_law(ctx):
         if kind in ('spike', 'step') or len(set(v.tolist())) < 3:
             v = gen.noise_record(rng, n)
             kind = 'noise'
-        b = rng.choice([0.05001, 0.1, 0.25, 0.34, 0.5, 1.0]) if rng.random() < 0.6 else rng.uniform(0.0501, 1.0)
-        cut = rng.choice([0.0, 0.0, 0.01, 0.05, 0.1])
+        # (+ source hints: exponent b and cut_off at / around every new float constant of the anchored files)
+        b = rng.choice([0.05001, 0.1, 0.25, 0.34, 0.5, 1.0] + gen.hint_values(ctx, 0.0501, 1.0, cap=10, maps=(lambda c: c, lambda c: 1 / c))) if rng.random() < 0.6 else rng.uniform(0.0501, 1.0)
+        cut = rng.choice([0.0, 0.0, 0.01, 0.05, 0.1] + gen.hint_values(ctx, 1e-6, 0.5, cap=10))
         peak = float(np.max(np.abs(v)))
         a_ref = peak * rng.choice([0.3, 0.65, 1.0, 2.0])
         n_cyc = rng.choice([1, 5, 15, 2.5])
@@ -375,6 +376,9 @@ def _x2_large(ctx, cur):
     sizes = [('int-walk', rng.choice([5000, 8192, 12000])), ('plateau', rng.choice([20000, 32768, 60000])), ('dyadic-walk', rng.choice([10000, 16384, 50000]))]
     if not quick:
         sizes += [(k, m) for k in ('int-walk', 'plateau', 'dyadic-walk') for m in (4096, 5001, 65536, 100000)]
+    # source hints: numbers of samples / of turning points ('zigzag': every interior sample is one) around every new integer constant
+    hs = gen.hint_sizes(ctx, lo=9, hi=300000, cap=6, halves=True)
+    sizes += [('int-walk', m) for m in hs if m > 600] + [('zigzag', m + d) for m in hs for d in (0, 2, 3)]
     for kind, n in sizes:
         seed = rng.randrange(2 ** 31)
         g = np.random.default_rng(seed)
@@ -383,6 +387,8 @@ def _x2_large(ctx, cur):
         elif kind == 'plateau':
             v = np.repeat(g.integers(-5, 6, size=n // 2 + 1), g.integers(1, 4, size=n // 2 + 1))[:n].astype(float)
             v = np.concatenate((v, np.full(n - len(v), v[-1]))) if len(v) < n else v
+        elif kind == 'zigzag':
+            v = (g.integers(1, 4, size=n) * (-1) ** np.arange(n)).astype(float)
         else:
             v = np.cumsum(g.integers(-2, 3, size=n) * np.repeat(g.choice([-1, 1], size=n // 40 + 1), 40)[:n]) / 8.0
         desc = {'generator': 'c13.extras2 large', 'kind': kind, 'n': n, 'numpy_seed': seed}
@@ -416,12 +422,14 @@ def _x2_large(ctx, cur):
                 ctx.oracle('C13 (large) peak-only series scale exactly with the series (power of two)',
                            gen.scaled_exactly(pc.determine_peaks_only_delta_series(v * 2.0 ** k), d, 2.0 ** k) and
                            gen.scaled_exactly(pc.determine_pseudo_cyclic_peak_only_series(v * 2.0 ** k), p, 2.0 ** k), {**desc, 'scale': '2**%d' % k})
-    for it in range(2 if quick else 8):
+    hs = gen.hint_sizes(ctx, lo=401, hi=300000, cap=5, halves=True)       # source hints (sizes; b and cut_off as above)
+    for it in range((2 if quick else 8) + len(hs)):
         n = rng.choice([6000, 20000, 50000]) if quick else rng.choice([4096, 5001, 20000, 65536, 100000])
+        n = n if it >= len(hs) else hs[it]
         seed = rng.randrange(2 ** 31)
         v = np.random.default_rng(seed).standard_normal(n) * rng.choice([1.0, 1e-3, 250.0])
-        b = rng.choice([0.1, 0.25, 0.34, 0.5, 1.0])
-        cut = rng.choice([0.0, 0.0, 0.05])
+        b = rng.choice([0.1, 0.25, 0.34, 0.5, 1.0] + gen.hint_values(ctx, 0.0501, 1.0, cap=10, maps=(lambda c: c, lambda c: 1 / c)))
+        cut = rng.choice([0.0, 0.0, 0.05] + gen.hint_values(ctx, 1e-6, 0.5, cap=10))
         n_cyc = rng.choice([1, 5, 15, 2.5])
         peak = float(np.max(np.abs(v)))
         a_ref = peak * rng.choice([0.3, 0.65, 1.0])
